@@ -164,3 +164,11 @@ chk("C12", "exploration",
     "a marker goes both ways right after the close and again 2.5 s later; nothing in flight is lost; no one-liners after the shell is gone; exit 0 with Goodbye after at most one more line; termios restored.",
     "'shortly' = refused at some poll within 20 s; the operator's line is entered 3 s after the shell is gone (net/http's graceful shutdown polls at up to 500 ms, a line typed inside that window is consumed first).",
     "DESIGN.md 5 C12")
+
+chk("C19", "model_checking",
+    "stateless exhaustive DFS over all event strings of length L on the real opshell.Shell under a virtual clock (import-rewritten time), three-valued reference model",
+    "lib/opshell/opshell.go is built with its time import rewritten (overlay) to a virtual clock. The real Shell is constructed by the real New in worker processes whose controlling terminal is a fresh pty, Do running, terminal output captured; "
+    "every event string of length 6 (thorough 8) over {Ctrl+O, plain chunk, status line, +0.1 s, +1.9 s, +2.1 s} is executed (46 656 / 1 679 616 executions), timers firing at their own deadlines with quiescence after each; "
+    "oracle after every step: a chunk is shown iff the model is un-muted, every status line is shown, exactly one Muting / Already muted / Unmuting announcement where due, nothing suppressed without Ctrl+O, private flag equals the model where the model is sure.",
+    "Ctrl+O is delivered through the callback the Shell registered (goxterm's key decoding trusted). Three-valued model: between the two readings of a repeated Ctrl+O and exactly on a 2.0 s boundary either state is accepted. Real-time behaviour of the binary is not part of the deciding run.",
+    "DESIGN.md 5 C19")
